@@ -124,11 +124,13 @@ func runProp(id string) func(*Ctx) {
 			}
 			return
 		}
-		corpus := loadCorpus(c)
-		for _, cs := range corpus {
-			p.Eval(c, cs)
+		if c.Shard == 0 { // the corpus of past failures runs first, in one shard only
+			corpus := loadCorpus(c)
+			for _, cs := range corpus {
+				p.Eval(c, cs)
+			}
+			c.Note("corpus_cases", len(corpus))
 		}
-		c.Note("corpus_cases", len(corpus))
 		p.Gen(c)
 	}
 }
